@@ -54,6 +54,7 @@ var seedsCSS = []string{
 }
 
 var seedsHTML = []string{
+	"<p></P Class=X Data-Y=\"Z\" >",
 	"<!DOCTYPE html><html><head><title>a<b</title></head><body class=a id='b' data-x=\"c\" hidden>t</body></html>",
 	"<a b=c d = e f='g h' i=\"j>k\" l/>m</a>", "<br/><img src=a.png /><input disabled>", "<!-- c --><!--><!---><!--a--!>b", "<?php x ?><!x></ y><//>",
 	"<script>if (a < b && c > d) x = '</s' + 'cript>';</script>z", "<script><!-- x = '<script>' + '</script>'; --></script>y",
